@@ -33,6 +33,10 @@ RULES = {
     'C05.i': 'the catch-up batch cannot overflow the member link silently: in the supervisor every command of the batch is sent through a '
              'fresh clone of the member\'s sender (futures mpsc guarantees one slot per sender handle), not through one handle reused '
              'for the whole loop (about a hundred try_sends, the rest is dropped with a warning)',
+    'C05.j': 'the catch-up labels each key with its LAST operation: the oplog query visits rotated files oldest first and the live file last '
+             '(C12.d) and inserts every record it reads unconditionally (C12.h), so a later record replaces an earlier one of the same key',
+    'C05.k': 'the node names itself with one Databases field in every node-to-node message (C15.g): the catch-up request `replicate-since '
+             '<name>` must carry the name the primary registered, or the primary finds no such member and sends nothing',
 }
 
 
@@ -58,6 +62,29 @@ def builders(m):
 
 
 def run(ck, m):
+    _run(ck, m)
+    # the incremental catch-up is built from what the oplog query returns: the query's "last record of a key wins" rules are C12's
+    # (d: files oldest first, live file last; h: every record inserted unconditionally); their verdicts are repeated here because a
+    # key written and then removed while the node was away is removed on it only if the LAST record labels the key
+    from nl import report
+    from props import C12
+    tmp = report.Check('C12', 'quick', 0)
+    try:
+        C12.run(tmp, m)
+    except Exception as e:      # fail closed
+        ck.undecided('C05.j', 'oplog-query', 'rules', 'C12.d / C12.h could not be evaluated: %s' % e)
+    n_ = 0
+    for o in tmp.obs:
+        if o['key'].endswith((':insert-unconditional', ':oldest-first-live-last')):
+            n_ += 1
+            ck.ob('C05.j', o['key'].split(':')[1], o['key'].split(':', 2)[2], o['verdict'] == 'discharged', o['what'], o['loc'], verdict=o['verdict'])
+    ck.floor('C05.j', n_, 2, 'last-record-wins rules of the oplog query')
+    # the node asks for its catch-up under the name the primary registered it with (C15.g, same field for every self-naming message)
+    from props import C15
+    C15.self_name_agrees(ck, m, rule='C05.k')
+
+
+def _run(ck, m):
     for k, v in RULES.items():
         ck.rule(k, v)
     P = m.prog
